@@ -2,7 +2,7 @@
 Driver for C16. Trace lines of one case (harness/cmd/verifharness/c16.go):
 
   part <seek|seq> <css> <hlen> <pt>     pt: hex | "-" | gen:<n> (pt[i] = (7i+3) mod 251)
-  fixes eof=<0|1>
+  fixes eof=<0|1> hdreof=<0|1> seqcut=<0|1>   repairs present in the tree under test (probed)
   mut none | xor <off> <mask> | trunc <n> | append <hex> | swap <i> <j> <first stream byte> | cross-whole | cross-body |
       hdr-segsize <v> <hlen2> | hdr-dek | hdr-version <v> <hlen2> | hdr-keytype <v> <hlen2>
   full <ok|err> <tok>                   "=" (the plaintext), "<k" (its first k bytes), else hex
@@ -87,6 +87,7 @@ def judgeCase (_k : Nat) (lines : List String) : Verdict := Id.run do
   let some pt := parsePt ptTok | return { diverge := ["unparsable-trace:pt"] }
   let fix := ((toks.find? (·.head? == some "fixes")).getD []).contains "eof=1"
   let fixHdr := ((toks.find? (·.head? == some "fixes")).getD []).contains "hdreof=1"
+  let fixSeq := ((toks.find? (·.head? == some "fixes")).getD []).contains "seqcut=1"
   let base := 4 + hlen
   let streamA := tinkStream toy keyA saltA preA css pt
   let storedA := be32 hlen ++ List.replicate hlen 0x7B ++ streamA
@@ -136,7 +137,7 @@ def judgeCase (_k : Nat) (lines : List String) : Verdict := Id.run do
       | "seek", none => .res (seekRead toy setup.keyOf fix setup.css setup.ct 0)
       | _, none =>
         -- tink-go refuses a ciphertext segment size that leaves no room for header + tag
-        if setup.css ≤ 56 then .res (.err []) else .res (seqRead toy setup.keyOf fixHdr setup.css setup.ct)
+        if setup.css ≤ 56 then .res (.err []) else .res (seqRead toy setup.keyOf fixHdr setup.css setup.ct fixSeq)
       | _, some _ => .res (.err [])
   let mutated := mutT != ["mut", "none"]
   let mkind := mutT.getD 1 "none"
@@ -238,7 +239,7 @@ def judgeCase (_k : Nat) (lines : List String) : Verdict := Id.run do
       | _ => pure ()
       i := i + 1
   let vio' := vio.foldl (fun acc v => if acc.any (·.1 == v.1) then acc else acc ++ [v]) []
-  stats := addStats stats [("seek_reads_judged", seeksJudged), (s!"model_variant_eof{if fix then 1 else 0}_hdreof{if fixHdr then 1 else 0}", 1)]
+  stats := addStats stats [("seek_reads_judged", seeksJudged), (s!"model_variant_eof{if fix then 1 else 0}_hdreof{if fixHdr then 1 else 0}_seqcut{if fixSeq then 1 else 0}", 1)]
   return {
     diverge := div.take 5, violations := vio',
     nontrivial := !pt.isEmpty,
